@@ -45,13 +45,26 @@ def collect(chk, prop):
     for i in range(40 if thorough else 8):      # larger networks, longer histories
         plans.append((rng.choice([30, 45, 60]), rng.choice([[2, 3], [2, 3, 4]]), 0.8, rng.choice(["random", "holes"]),
                       rng.choice([15, 25, 40]), -1))
+    if prop == "C12":
+        # two interchangeable 2-clique topologies: the excess keys of both topologies live in the same small set, so a
+        # pairing that is forbidden in one topology is typically a legal key of the other
+        for i in range(300 if thorough else 60):
+            plans.append((rng.choice([12, 16, 24]), [2, 2], rng.choice([1.0, 1.5]), "manyholes", rng.choice([1, 3, 6]), -1))
     for n, sizes, dens, mode, limit, search in plans:
-        es, jd, tops = R.clean_network(rng, n, sizes, dens)
+        names = ["2-clique", "2-clique-blue"] if sizes == [2, 2] else None
+        es, jd, tops = R.clean_network(rng, n, sizes, dens, names=names)
         if len(es) < 4:
             continue
         tg = R.make_target(rng, es, jd, tops, mode)
-        tr = R.execute({"edges": es, "jd": jd, "tops": tops, "target": tg, "limit": limit, "search": search,
-                        "rng": ("seed", rng.randrange(1 << 30)), "watchdog": 2 if n <= 24 else 15})
+        case = {"edges": es, "jd": jd, "tops": tops, "target": tg, "limit": limit, "search": search,
+                "rng": ("seed", rng.randrange(1 << 30)), "watchdog": 2 if n <= 24 else 15,
+                "ejk_order": rng.choice(["names", "reversed"])}
+        if rng.random() < 0.2:
+            # object reuse: the same vertices carried other motifs (hence other joint degrees) in the network rewired before
+            es0, jd0, _t = R.clean_network(rng, n, sizes, dens, names=names)
+            if len(es0) >= 4:
+                case["pre"] = {"edges": es0, "jd": jd0, "limit": rng.choice([0, 2, 4]), "seed": rng.randrange(1 << 30)}
+        tr = R.execute(case)
         if tr["timeout"]:
             timeouts += 1
             if not any(s["result"] for s in tr["steps"]):
